@@ -363,9 +363,9 @@ type symResult struct {
 }
 
 type symFinding struct {
-	pos    token.Pos
-	a, b   string
-	what   string
+	pos  token.Pos
+	a, b string
+	what string
 }
 
 var cmpOps = map[token.Token]bool{token.EQL: true, token.NEQ: true, token.LSS: true, token.LEQ: true, token.GTR: true, token.GEQ: true}
